@@ -979,7 +979,9 @@ def instances(tier):
         for cnt in (1, 2, 3, 4):
             tables = list(itertools.product(rows, repeat=cnt))
             if not thorough and len(tables) > 64:
-                tables = [t for i, t in enumerate(tables) if i % 9 == 0]
+                tables = [t for i, t in enumerate(tables) if i % 13 == 0]
+            elif not thorough and len(tables) > 16:
+                tables = [t for i, t in enumerate(tables) if i % 3 == 0]
             for tb in tables:
                 bits = [list(r) for r in tb]
                 cmin = max(1, math.ceil(math.log2(cnt)))
@@ -1082,6 +1084,8 @@ def instances(tier):
         for n in (1, 2, 3):
             for t in (G1, 2.4, G2):
                 for order in (1, 2, 4):
+                    if order == 4 and not thorough and (n == 3 or h == "flat4"):
+                        continue
                     add("TrotterProduct", {"h": h, "t": t, "n": n, "order": order}, TWO if (n == 2 and t == G1) else SEQ)
                 add("ApproxTimeEvolution", {"h": h, "t": t, "n": n}, TWO if (n == 2 and t == G1) else SEQ)
     return out
@@ -1100,7 +1104,8 @@ def routes_for(t, a):
     rs = []
     if sum(s for _, s in regs) <= MATRIX_MAX_WIRES:
         rs.append("matrix")
-    rs.append("device")
+    if t != "qsvt":  # its reference is the REAL part of a block: not linear in the input, judged on the matrix routes only
+        rs.append("device")
     if X.overrides_decomposition(op):
         rs.append("dec")
     for name, _ in X.rules(op):
